@@ -73,13 +73,13 @@ func FeatureIDFromUKONSCode(code string, year int, t FeatureType) FeatureID {
 	if len(code) != 9 {
 		return FeatureIDInvalid
 	}
-	n, err := strconv.Atoi(code[1:])
+	n, err := strconv.ParseUint(code[1:], 10, 32)
 	if err != nil {
 		return FeatureIDInvalid
 	}
 	codeBits := uint64(uint8(byte(code[0]))) << ukONSCodeShift
 	yearBits := uint64(uint8(year-1900)) << ukONSYearShift
-	return FeatureID{Type: t, Namespace: NamespaceUKONSBoundaries, Value: codeBits | yearBits | uint64(n)}
+	return FeatureID{Type: t, Namespace: NamespaceUKONSBoundaries, Value: codeBits | yearBits | n}
 }
 
 func UKONSCodeFromFeatureID(id FeatureID) (string, int, bool) {
